@@ -1,10 +1,10 @@
 /-
-  The estimators of cnvlib/descriptives.py: the models (Model/Descriptives.lean) equal the definitions the typed
-  translator reads off the current source (Generated/ExprsDesc.lean, regenerated from /repo on every run by
-  harness/vectrans.py).  First the numpy vocabulary (`Np.sel`, `Np.take`, `Np.cumsum`, ...) is related to the list
-  functions the models are written with, then one theorem per function.
+  The numpy vocabulary of harness/vectrans.py (`Np.sel`, `Np.take`, `Np.cumsum`, `Np.searchLeft/Right`, `Np.average`,
+  position-wise products) related to the list functions the models of Model/Descriptives.lean are written with.
+  Nothing here depends on the generated source expressions: each tie `Props/C19Src<Function>.lean` imports this file
+  and Generated/ExprsDesc.lean, so an edited formula breaks the obligation of THAT function only.
 -/
-import CnvVerif.Generated.ExprsDesc
+import CnvVerif.Model.NpVec
 import CnvVerif.Lemmas.DescBiweight
 namespace CnvVerif.Src
 open CnvVerif CnvVerif.Desc CnvVerif.Generated
@@ -90,30 +90,7 @@ theorem searchRight_cumsum (w : List Rat) (v : Rat) :
   unfold Np.searchRight Np.cumsum firstIdx
   rw [List.findIdx_map]; rfl
 
-/-! ### MAD, IQR -/
-
-/-- `median_absolute_deviation`: the model is the source expression (both values of `scale_to_sd`) -/
-theorem mad_is_source (a : List Rat) (b : Bool) : src_median_absolute_deviation a b = madCore a b := by
-  unfold src_median_absolute_deviation madCore MAD_SCALE
-  simp only [List.map_map]
-  cases b <;> rfl
-
-/-- `interquartile_range` -/
-theorem iqr_is_source (a : List Rat) : src_interquartile_range a = iqrCore a := by
-  unfold src_interquartile_range iqrCore IQR_Q_HI IQR_Q_LO
-  norm_num
-
-/-! ### Qn: the finite-sample factor chain and the quartile -/
-
-/-- `q_n` after its double loop, the list `vals` being the pairwise distances the loop collects -/
-theorem qn_is_source (a : List Rat) : src_q_n a (pairDiffs a) = qnCore a := by
-  unfold src_q_n qnCore qnScale QN_Q QN_N_SMALL QN_N_MID_LO QN_N_LARGE QN_SCALE_SMALL QN_SCALE_MID_BASE QN_SCALE_LARGE QN_NUM
-  simp only []
-  have hq : ((25 : Rat) / 100) = (((25 : Nat) : Rat) / 100) := by norm_num
-  rw [hq]
-  split_ifs <;> rfl
-
-/-! ### weighted standard deviation -/
+/-! ### weighted mean -/
 
 theorem zip_weight_sum (a w : List Rat) (h : a.length = w.length) : ((a.zip w).map (·.2)).sum = w.sum := by
   have : (a.zip w).map (·.2) = w := List.map_snd_zip (by omega)
@@ -130,46 +107,10 @@ theorem wavg_zip (a w : List Rat) (h : a.length = w.length) (v : Rat) (hv : wavg
   · rw [zipWith_mul_eq_zip_map]
     exact Option.some.inj hv
 
-/-- `weighted_std`: where the model returns a variance (total weight not 0), the source returns its root -/
-theorem wstd_is_source (a w : List Rat) (h : a.length = w.length) (v : Rat)
-    (hv : weightedVarCore (a.zip w) = some v) : src_weighted_std a w = ScaleOut.root v := by
-  unfold weightedVarCore at hv
-  unfold src_weighted_std
-  simp only []
-  cases hm : wavg (a.zip w) with
-  | none => rw [hm] at hv; exact absurd hv (by simp)
-  | some mean =>
-    rw [hm] at hv
-    simp only [] at hv
-    rw [wavg_zip a w h mean hm]
-    have hz : (a.zip w).map (fun q => (sq (q.1 - mean), q.2)) = ((a.map (fun v => v - mean)).map (fun v => v ^ 2)).zip w := by
-      rw [List.map_map]
-      apply List.ext_getElem (by simp [List.length_zip])
-      intro i h1 h2
-      simp [Desc.sq, pow_two]
-    rw [hz] at hv
-    rw [wavg_zip _ w (by simp [h]) v hv]
+theorem diffs_length' (s : List Rat) : (diffs s).length = s.length - 1 := by
+  unfold diffs; simp [List.length_zip]
 
-/-! ### biweight location: one step -/
-
-/-- the nested step function of `biweight_location` is the model's `bilocIter`, for every cut-off `c` and floor `ε` -/
-theorem biloc_iter_is_source (a : List Rat) (init c eps : Rat) :
-    src_biloc_iter a init c eps = bilocIter c eps a init := by
-  unfold src_biloc_iter bilocIter
-  simp only []
-  generalize hd : a.map (fun v => v - init) = d
-  generalize hs : max (c * median (d.map absR)) eps = s
-  have hmask : ((d.map (fun v => v / s)).map absR).map (fun v => decide (v < (1 : Rat))) =
-      d.map (fun x => decide (absR (x / s) < 1)) := by
-    rw [List.map_map, List.map_map]; rfl
-  have hw : (((d.map (fun v => v / s)).map (fun v => v ^ 2)).map (fun v => (1 : Rat) - v)).map (fun v => v ^ 2) =
-      d.map (fun x => Desc.sq (1 - Desc.sq (x / s))) := by
-    rw [List.map_map, List.map_map, List.map_map]
-    apply List.map_congr_left; intro x _; simp [Desc.sq, pow_two]
-  rw [hmask, hw, sel_map_map, sel_self_map, zipWith_mul_eq_zip_map]
-
-/-! ### biweight midvariance -/
-
+/-! ### biweight midvariance: the part after the deviations, the scale and the fall-back value are known -/
 /-- the part of the model's `bivarCore` after the deviations `d`, the scale `s` and the MAD fall-back value `fb` are known -/
 def bivarTailModel (d : List Rat) (s fb : Rat) : ScaleOut :=
   let kept := d.filter (fun x => decide (absR (x / s) < 1))
@@ -225,67 +166,5 @@ theorem bivarCore_tail (a : List Rat) (init : Rat) :
     bivarCore false a (some init) =
       bivarTailModel (a.map (· - init)) (max (BIVAR_C * median ((a.map (· - init)).map absR)) BIVAR_EPS)
         (median ((a.map (· - init)).map absR) * MAD_SCALE_BIVAR) := rfl
-
-theorem src_bivar_tail (a : List Rat) (init c eps : Rat) :
-    src_biweight_midvariance a init c eps =
-      bivarTailSrc (a.map (· - init)) (max (c * median ((a.map (· - init)).map absR)) eps)
-        (median ((a.map (· - init)).map absR) * MAD_SCALE_BIVAR) := rfl
-
-/-- `biweight_midvariance` about a given centre: the model returns what the source computes -- the MAD fall-back on
-    exactly symmetric data, otherwise the root of the same radicand -- except where the source divides by zero
-    (`.undefined`: inf / NaN in Python) -/
-theorem bivar_is_source (a : List Rat) (init : Rat) :
-    bivarCore false a (some init) = ScaleOut.undefined ∨
-      bivarCore false a (some init) = src_biweight_midvariance a init BIVAR_C BIVAR_EPS := by
-  rw [bivarCore_tail, src_bivar_tail]
-  exact bivarTail_eq _ _ _
-
-/-! ### weighted median -/
-
-/-- `weighted_median` behind its decorator (equal lengths): the model run on the (value, weight) pairs with the
-    permutation `argsort` returned is the source expression -/
-theorem wmedian_is_source (a w : List Rat) (order : List Nat) (h : a.length = w.length) :
-    src_weighted_median a w order = weightedMedianCore false order (a.zip w) := by
-  unfold src_weighted_median weightedMedianCore wmedSorted wmedTol
-  simp only [Bool.false_eq_true, if_false]
-  have hlen : (permute order (a.zip w)).length = (Np.take w order).length := by simp [permute, Np.take]
-  have hlenA : (Np.take a order).length = (Np.take w order).length := by simp [Np.take]
-  rw [permute_zip_fst order a w h, permute_zip_snd order a w h, hlen, hlenA]
-  generalize Np.take a order = A
-  generalize Np.take w order = W
-  rw [searchLeft_cumsum, searchRight_cumsum, List.any_map]
-  have hmid : (1 : Rat) / 2 * W.sum = W.sum / 2 := by ring
-  rw [hmid]
-  split_ifs with h1 h2 h2
-  · rfl
-  · exact absurd h1 h2
-  · exact absurd h2 h1
-  · ring
-
-/-! ### gapper -/
-
-theorem diffs_length' (s : List Rat) : (diffs s).length = s.length - 1 := by
-  unfold diffs; simp [List.length_zip]
-
-/-- `gapper_scale`: the source value is the model's (which leaves out the factor `√π`) times `√π` -/
-theorem gapper_is_source (a : List Rat) (sqrt_pi : Rat) : src_gapper_scale a sqrt_pi = gapperCore a * sqrt_pi := by
-  unfold src_gapper_scale gapperCore Np.arange
-  simp only [sortR_length]
-  generalize hs : sortR a = s
-  have hn : s.length = a.length := by rw [← hs, sortR_length]
-  generalize hg : diffs s = g
-  have hL : g.length = a.length - 1 := by rw [← hg, diffs_length', hn]
-  have hw : (List.zipWith (fun u v => u * v) (List.map (fun (i : Nat) => (i : Rat)) (List.range' 1 (a.length - 1)))
-      (List.map (fun v => ((a.length : Nat) : Rat) - v) (List.map (fun (i : Nat) => (i : Rat)) (List.range' 1 (a.length - 1))))) =
-      (List.range g.length).map (fun i => (((i + 1) * (a.length - (i + 1)) : Nat) : Rat)) := by
-    rw [List.map_map, zipWith_map_same', List.range'_eq_map_range, List.map_map, hL]
-    apply List.map_congr_left
-    intro i hi
-    have hi' : i < a.length - 1 := List.mem_range.mp hi
-    simp only [Function.comp]
-    rw [Nat.cast_mul, Nat.cast_sub (by omega)]
-    push_cast; ring
-  rw [hw, List.zipWith_map_right, zipWith_eq_zip_map']
-  ring
 
 end CnvVerif.Src
